@@ -22,10 +22,10 @@
                       delta = bytes sent after the header block minus the declared length (0: exact); the
                       connection was closed right after the response ]
      [k |-> "input", site, proto, srck, src, lines] (scenario description; lines = number of lines of the payload, > 1
-     when it contains LF / CRLF) and [k |-> "end"] carry no obligations.                   *)
+     when it contains LF / CRLF; size = 0 short, 1 reflected text > 16 KiB, 2 > 64 KiB) and [k |-> "end"] carry no obligations.                   *)
 EXTENDS Verif
 
-MonInit == [bad |-> <<>>, wit |-> {}, pages |-> 0, lines |-> 1]
+MonInit == [bad |-> <<>>, wit |-> {}, pages |-> 0, lines |-> 1, size |-> 0]
 
 IsHtml(ev) == ev.html0 \/ ev.ctype = "html"
 
@@ -61,12 +61,16 @@ PageWit(ev) ==
        \cup (IF ev.proto = "h1" /\ ev.closed THEN {"h1_closed"} ELSE {})
 
 MonStep(m, ev) ==
-  IF ev.k = "input" THEN [m EXCEPT !.lines = Get(ev, "lines", 1)]
+  IF ev.k = "input" THEN [m EXCEPT !.lines = Get(ev, "lines", 1), !.size = Get(ev, "size", 0)]
   ELSE IF ev.k = "page"
     THEN [m EXCEPT !.bad = Clause(m, ev), !.pages = @ + 1,
                    !.wit = @ \cup PageWit(ev)
                            \cup (IF m.lines > 1 /\ IsHtml(ev) /\ ev.refl /\ Has(ev.src, "lt") /\ Has(ev.dec, "lt")
-                                 THEN {"multiline_escaped_lt"} ELSE {})]
+                                 THEN {"multiline_escaped_lt"} ELSE {})
+                           \cup (IF IsHtml(ev) /\ ev.refl /\ ev.proto = "h1" /\ ev.has_len /\ ev.delta = 0
+                                 THEN (IF m.size = 1 THEN {"long16_h1_exact"} ELSE IF m.size = 2 THEN {"long64_h1_exact"} ELSE {})
+                                 ELSE {})
+                           \cup (IF IsHtml(ev) /\ ev.refl /\ ev.proto = "h2" /\ m.size = 1 THEN {"long16_h2_page"} ELSE {})]
   ELSE IF ev.k = "end" /\ m.pages = 0 THEN [m EXCEPT !.wit = @ \cup {"no_page"}]
   ELSE m
 Wit(m) == m.wit
